@@ -107,6 +107,9 @@ def exec_c10(scn) -> list[dict]:
         except Exception as e:
             r["out"], r["back"], r["exc"] = [], [], exc_name(e)
         recs.append(r)
+    # -- EXTENSION: the other BpmList operations (reported as observations, not as C10 violations)
+    if scn.get("starts") and scn.get("entry") == "snap" and scn.get("bpm_ops"):
+        recs += _bpm_ops(scn)
     # -- cumulative beats (constant metronome only) ---------------------------------------------
     if len({c["met"] for c in tl}) == 1:
         for n, ts in enumerate(scn.get("beat_times", [])):
@@ -288,4 +291,39 @@ def snapper_scenarios(tier):
         if max(divs) > 16 and tier == "quick":
             vals = vals[::3]
         out.append({"kind": "snapper", "id": f"sn{i}", "divs": divs, "values": vals})
+    return out
+
+
+def _bpm_ops(scn):
+    from reamber.base.Bpm import Bpm
+    from reamber.base.lists.BpmList import BpmList
+    otl = [{"t": st, "bl": c["bl"], "bpm100": int(round(_bpm(c["bl"]) * 100))} for c, st in zip(scn["tl"], scn["starts"])]
+    out = []
+
+    def mk():
+        return BpmList([Bpm(offset=ms(o["t"]), bpm=_bpm(o["bl"]), metronome=4) for o in otl])
+    base = {"cls": "ext.bpmlist", "ext": True, "otl": otl, "exc": ""}
+    last = otl[-1]["t"] + 2 * otl[-1]["bl"]
+    times = [otl[0]["t"] - 1000] + [o["t"] for o in otl] + [o["t"] + 50 for o in otl] + [o["t"] - 50 for o in otl] + [last]
+    for n, t in enumerate(times):
+        r = dict(base, id=f"{scn['id']}/cur{n}", op="current_bpm", t=t, out_t=0, out_bl=0)
+        try:
+            b = mk().current_bpm(ms(t))
+            r["out_t"], r["out_bl"] = ticks(b.offset), ticks(60000.0 / float(b.bpm))
+        except Exception as e:
+            r["exc"] = exc_name(e)
+        out.append(r)
+    for nths in (1, 2, 4):
+        r = dict(base, id=f"{scn['id']}/snap{nths}", op="snap_offsets", nths=nths, last=last, out=[])
+        try:
+            r["out"] = [ticks(x) for x in mk().snap_offsets(nths, ms(last))]
+        except Exception as e:
+            r["exc"] = exc_name(e)
+        out.append(r)
+    r = dict(base, id=f"{scn['id']}/ave", op="ave_bpm", last=last, out100=0)
+    try:
+        r["out100"] = int(round(float(mk().ave_bpm(ms(last))) * 100))
+    except Exception as e:
+        r["exc"] = exc_name(e)
+    out.append(r)
     return out
